@@ -443,5 +443,36 @@ func (g *Gen) MetaProgram() *Chunk {
 				CallN("rawget", N(bottom), Str("present"))))
 		g.cover("nchain:%d", depth)
 	}
+	// global reads and assignments are indexing operations on the function's
+	// environment: its handlers apply, whatever the globals table itself carries
+	if g.R.Intn(4) == 0 {
+		env, store, fn := g.fresh("env"), g.fresh("store"), g.fresh("envfn")
+		var ni Expr
+		if g.R.Intn(2) == 0 {
+			ni = Fn([]string{"t", "k", "v"}, false, Blk(CallSN("emit", Str("env-newindex"), N("k"), N("v")), &SCall{Call: CallN("rawset", N("t"), N("k"), N("v"))}))
+		} else {
+			ni = N(store) // a table: the store is redirected
+		}
+		var idx Expr
+		if g.R.Intn(2) == 0 {
+			idx = Fn([]string{"t", "k"}, false, Blk(CallSN("emit", Str("env-index"), N("k")), Return(CallN("rawget", N(store), N("k")))))
+		} else {
+			idx = N(store)
+		}
+		b.Stmts = append(b.Stmts,
+			Local1(store, &ETable{Items: []TItem{{Kind: TName, Name: "emit", Val: N("emit")}, {Kind: TName, Name: "gpreset", Val: Num(5)}}}),
+			Local1(env, CallN("setmetatable", &ETable{}, &ETable{Items: []TItem{{Kind: TName, Name: "__newindex", Val: ni}, {Kind: TName, Name: "__index", Val: idx}}})),
+			Local1(fn, CallN("setfenv", Fn(nil, false, Blk(
+				Assign1(N("genv1"), Num(1)),
+				Assign1(N("genv1"), Num(2)), // present now (if the handler stored it raw): no handler
+				&SAssign{LHS: []Expr{N("genv2"), N("genv3")}, RHS: []Expr{N("gpreset"), Str("three")}},
+				&SFunc{Target: N("genvf"), F: &Func{Body: Blk(Return(N("genv1")))}},
+				Return(N("genv1"), N("genv2"), N("gpreset")))), N(env))),
+			CallSN("emit", Str("env-results"), &EParen{X: CallN("pcall", N(fn))}, CallN("select", Num(2), CallN("pcall", N(fn)))),
+			CallSN("emit", Str("env-raw"), CallN("rawget", N(env), Str("genv1")), CallN("rawget", N(env), Str("genv3")), CallN("type", CallN("rawget", N(env), Str("genvf"))),
+				CallN("rawget", N(store), Str("genv1")), CallN("rawget", N(store), Str("genv3")), CallN("type", CallN("rawget", N(store), Str("genvf"))),
+				CallN("rawget", N("_G"), Str("genv1")), CallN("rawget", N("_G"), Str("genv3"))))
+		g.cover("env:handlers-on-a-function-environment")
+	}
 	return &Chunk{Body: b}
 }
